@@ -101,7 +101,7 @@ def one_base(ctx, shard, i, rng):
     n = gen.bt_nbins(bt)
     symm = bool(rng.random() < 0.6)
     two = bool(rng.random() < 0.4)
-    P = gen.gen_pixels(rng, n, symm, None if ktrap is None else "dense")
+    P = gen.gen_pixels(rng, n, symm, None if ktrap is None else "dense", zeros=0.3 if (shard["sub"] + i) % 6 == 1 else 0.0)
     if not P and rng.random() < 0.7:
         P = gen.gen_pixels(rng, n, symm, "sparse70")
     E = {kk: float(int(rng.integers(-80, 80))) / 8.0 for kk in P} if two else None
